@@ -238,6 +238,73 @@ fn exchange_inner(s: &Session, ch: &mut Chooser) -> Result<String, String> {
     }
 }
 
+/// Honest exchange up to the proofs, then every structured alteration of M1 against clones of the
+/// real SrpProof and of M2 against clones of the real SrpClientChallenge.
+fn multi_bit(s: &Session, full: bool) -> Result<u64, (String, serde_json::Value, String)> {
+    use rayon::prelude::*;
+    let mut script = Vec::with_capacity(112);
+    script.extend_from_slice(&s.salt);
+    script.extend_from_slice(&s.b);
+    script.extend_from_slice(&s.a);
+    let (setup, _, _) = with_script(&script, || {
+        let verifier = SrpVerifier::from_username_and_password(ns(&s.user), ns(&s.pass));
+        let proof = verifier.into_proof();
+        let bk = PublicKey::from_le_bytes(*proof.server_public_key()).unwrap();
+        let client = SrpClientChallenge::new(ns(&s.user), ns(&s.pass), GENERATOR, LARGE_SAFE_PRIME_LITTLE_ENDIAN, bk, *proof.salt());
+        (proof, client)
+    });
+    let (proof, client) = setup.map_err(|m| ("panic".to_string(), json!({"session": s.name}), format!("honest setup panicked: {m}")))?;
+    let a_pub = *client.client_public_key();
+    let m1 = *client.client_proof();
+    let rs = s.ref_server(&a_pub).ok_or(("value-mismatch".to_string(), json!({}), "degenerate session".to_string()))?;
+    if rs.1 != m1 {
+        return Err(("value-mismatch".into(), json!({"session": s.name}), "client M1 differs from the reference (see C03)".into()));
+    }
+    let m2 = srp::m2(&a_pub, &m1, &rs.0);
+    let replay = |which: &str, presented: &[u8; 20]| json!({"session": s.name, "registered": [s.user, s.pass], "salt": hex(&s.salt), "b": hex(&s.b), "a": hex(&s.a), "altered": which, "presented": hex(presented)});
+    // server side
+    let alts = altered_proofs(&m1, full);
+    let bad = alts.par_iter().find_map_any(|alt| {
+        let ak = PublicKey::from_le_bytes(a_pub).unwrap();
+        let p = proof.clone();
+        let alt = *alt;
+        let (r, _, _) = with_script(&[0x11; 16], move || p.into_server(ak, alt).is_ok());
+        match r {
+            Ok(false) => None,
+            Ok(true) => Some(("server-accepts-wrong-proof".to_string(), replay("M1", &alt), format!("server ACCEPTED proof {} which differs from the reference {} in {} bit(s)", hex(&alt), hex(&m1), alt.iter().zip(m1.iter()).map(|(x, y)| (x ^ y).count_ones()).sum::<u32>()))),
+            Err(m) => Some(("panic".to_string(), replay("M1", &alt), format!("into_server panicked: {m}"))),
+        }
+    });
+    if let Some(b) = bad {
+        return Err(b);
+    }
+    // the unaltered proof is still accepted by a clone (guards the harness)
+    let ak = PublicKey::from_le_bytes(a_pub).unwrap();
+    let pc = proof.clone();
+    let (ok, _, _) = with_script(&[0x11; 16], move || pc.into_server(ak, m1).is_ok());
+    if ok != Ok(true) {
+        return Err(("server-refuses-right-proof".into(), replay("M1", &m1), "the honest proof is refused".into()));
+    }
+    // client side
+    let alts2 = altered_proofs(&m2, full);
+    let bad = alts2.par_iter().find_map_any(|alt| {
+        let c = client.clone();
+        let alt = *alt;
+        match catch(move || c.verify_server_proof(alt).is_ok()) {
+            Ok(false) => None,
+            Ok(true) => Some(("client-accepts-wrong-proof".to_string(), replay("M2", &alt), format!("client ACCEPTED server proof {} which differs from H(A|M1|K) = {}", hex(&alt), hex(&m2)))),
+            Err(m) => Some(("panic".to_string(), replay("M2", &alt), format!("verify_server_proof panicked: {m}"))),
+        }
+    });
+    if let Some(b) = bad {
+        return Err(b);
+    }
+    if catch(|| client.clone().verify_server_proof(m2).is_ok()) != Ok(true) {
+        return Err(("client-refuses-right-proof".into(), replay("M2", &m2), "the honest server proof is refused".into()));
+    }
+    Ok((alts.len() + alts2.len() + 2) as u64)
+}
+
 pub fn run(tier: Tier, seed: u64) -> i32 {
     let report = Report::new("C02", tier, seed, "model_checking");
     let specs: Vec<(&str, &str)> = if tier == Tier::Thorough {
@@ -293,6 +360,21 @@ pub fn run(tier: Tier, seed: u64) -> i32 {
         let s = session(&format!("pair{i}"), u, p, seed + 77 + i as u64);
         total += run_plan(&s, 2, &report);
     }
+    // multi-bit alterations of M1 (server) and M2 (client): a comparison that folds, truncates or
+    // word-compares the 20 bytes accepts patterns that no single-bit change reveals
+    let n_multi = tier.pick(2usize, 6usize);
+    let mut multi_cases = 0u64;
+    for i in 0..n_multi {
+        let (u, p) = specs[(i * 3) % specs.len()];
+        let s = session(&format!("multi{i}"), u, p, seed + 500 + i as u64);
+        let r = multi_bit(&s, tier == Tier::Thorough);
+        match r {
+            Ok(n) => multi_cases += n,
+            Err((class, replay, msg)) => report.violation(Violation { signature: format!("C02|{class}"), scenario: "multi-bit-proof-alterations".into(), replay, detail: json!({ "message": msg }) }),
+        }
+    }
+    report.count("multi_bit_alteration_cases", multi_cases);
+    total += multi_cases;
     for (o, n) in &outcome_totals {
         report.count(&format!("outcome_{o}"), *n);
     }
@@ -309,6 +391,7 @@ pub fn run(tier: Tier, seed: u64) -> i32 {
     report.sample("execution", json!({"typed": "case-only variant", "wire": "untouched", "expected": "both accept (a case difference is not a wrong credential)"}));
     report.sample("execution", json!({"typed": "same", "wire": "M1 bit 159 flipped", "expected": "Err(MatchProofsError{client_proof: presented, server_proof: reference M1}), no SrpServer"}));
     report.sample("execution", json!({"typed": "same", "wire": "M2 bit 0 flipped", "expected": "server accepted; client returns Err carrying both proofs, no SrpClient"}));
+    report.space(&format!("{n_multi} sessions with every structured multi-bit alteration of M1 and M2 (all pairs of bit flips in the thorough tier; byte replacements, truncations, rotations, word-cancelling flips)"));
     report.space(&format!("{n_sessions_b1} sessions with every single deviation (1,094 executions each); {n_b2} session(s) with every pair of deviations at different points"));
     report.set("exhaustive", json!(false));
     report.cap_hit("deviation bound 1 for most sessions, 2 for a few; session alphabet finite");
